@@ -620,10 +620,12 @@ class TDS(BaseRoutine):
         # do not skip over the end time
         self.h = max(min(self.h, config.tf - system.dae.t), 0)
 
-        # skip the first switch at the exact first time step to avoid h == 0
+        # an event scheduled exactly at the current time can only be pending at the starting time:
+        # no step will end at this time, so apply it now (which also moves on to the next switch time
+        # and avoids h == 0)
         if self._switch_idx < system.n_switches:
             if (not resume) and (system.dae.t == system.switch_times[self._switch_idx]):
-                self._switch_idx += 1
+                self.do_switch()
 
         # do not skip over event switch_times
         if self._switch_idx < system.n_switches:
